@@ -1,0 +1,21 @@
+//go:build verif
+
+package xibc
+
+// Contracts for the verification machinery in /verif (comment-only file; no code).
+// Genesis round trip of the xibc module (C13): the module genesis is the pair (client genesis, packet genesis), each
+// exported by and imported through its own submodule with its own keeper.
+
+// verif:func ExportGenesis
+//@ modifies xibc(ctx)
+//@ callsite core/client.ExportGenesis [client-keeper] dollar_k == k.ClientKeeper && dollar_ctx == ctx
+//@ callsite core/packet.ExportGenesis [packet-keeper] dollar_k == k.PacketKeeper && dollar_ctx == ctx
+//@ ensures [both-parts] ncalls("ExportGenesis") == 2 && result.ClientGenesis == callres("ExportGenesis", 0, 1) && result.PacketGenesis == callres("ExportGenesis", 0, 2)
+
+// verif:func InitGenesis
+//@ requires [validated-genesis] forall i int :: 0 <= i && i < len(gs.PacketGenesis.Acknowledgements) ==> gs.PacketGenesis.Acknowledgements[i].Data != nil
+//@ requires [validated-genesis2] forall i int :: 0 <= i && i < len(gs.PacketGenesis.Commitments) ==> gs.PacketGenesis.Commitments[i].Data != nil
+//@ modifies world(ctx)
+//@ callsite core/client.InitGenesis [client-part] dollar_k == k.ClientKeeper && dollar_gs == gs.ClientGenesis && dollar_ctx == ctx
+//@ callsite core/packet.InitGenesis [packet-part] dollar_k == k.PacketKeeper && dollar_gs == gs.PacketGenesis && dollar_ctx == ctx
+//@ ensures [both-parts] ncalls("InitGenesis") == 2
